@@ -2,10 +2,16 @@
 
 package web
 
+import "io"
+
+// Ghost response state (owned by the assumed contracts of encoding/json): the value last rendered to w.
+func ghost_rendered(w io.Writer) any { panic("ghost") }
+
 // RenderJSON writes headers and one JSON body; it cannot reach the manager.
 //@ func RenderJSON
 //@   requires w != nil
-//@   modifies ghost_nbody(w)
+//@   modifies ghost_nbody(w), ghost_rendered(w)
+//@   ensures[rendered] ghost_rendered(w) == data
 //@   serves C14
 
 // TextToHTML: escaping / linkifying of a text body (C18's territory); no effect on program state.
